@@ -249,7 +249,7 @@ func portableDoc(dv string) bool {
 	if dv == "<absent>" {
 		return true
 	}
-	for _, bad := range []string{"e", ".0", "9223372036854775808", "18446744073709551615", "18446744073709551616"} {
+	for _, bad := range []string{"e", ".0", "18446744073709551616"} {
 		if strings.Contains(dv, bad) && !strings.HasPrefix(dv, `"`) {
 			return false
 		}
